@@ -7,6 +7,12 @@
 (*   out, dt      canonical name of the unit and dtype of the result                           *)
 (*   close        harness flag: physical result equals that of the canonical-unit, all-double   *)
 (*                run of the same physical scenario to rounding                                 *)
+(*   shape        how the operands were handed over (hardening round): "1d" all operands 1-d,      *)
+(*                "aux0d" only the data operands 1-d, "first1d" only the first operand 1-d (the       *)
+(*                supplied energy of the inelastic kernels is then a 0-d parameter), "all0d",         *)
+(*                "events" the first operand as event data binned over the 1-d dim                     *)
+(*   layout_ok    the result is event data iff the first operand is                                    *)
+(*   again        the row is replayed a second time at the end of the run                              *)
 (* The unit string, dtype class and refusal class are judged here with the specification's      *)
 (* OutName / ResultDType tables.                                                                *)
 EXTENDS UnitsKernelsDefs, TLC, Json, IOUtils
@@ -15,20 +21,24 @@ Tr == ndJsonDeserialize(IOEnv.TRACE_FILE)
 VARIABLES l, nbad
 tvars == <<l, nbad>>
 
-DTypeUndocumented == {"propagate_times", "wavelength_to_inverse_velocity"}
+DTypeUndocumented == {"propagate_times", "wavelength_to_inverse_velocity", "Q_elements_from_wavelength"}
+Shapes == {"1d", "aux0d", "first1d", "all0d", "events"}
 
 JudgeCall(e) ==
     IF e.k \notin KernelNames THEN "unknown_kernel"
     ELSE IF DOMAIN e.U # ArgSet(e.k) \/ DOMAIN e.D # ArgSet(e.k) THEN "operands_differ_from_signature"
     ELSE IF \E a \in ArgSet(e.k) : UnitFam(e.U[a]) # ArgFam[a] THEN "unit_of_wrong_family"
     ELSE IF \E a \in ArgSet(e.k) : e.D[a] \notin AllDTypes THEN "unknown_dtype"
+    ELSE IF e.shape \notin Shapes THEN "unknown_shape"
     ELSE IF e.status = "raised" THEN "kernel_raised"
+    ELSE IF e.status = "malformed" THEN "malformed_result"
     ELSE IF e.status = "unsupported" THEN
          (IF \E a \in ArgSet(e.k) : IsInt(e.D[a]) THEN "ok" ELSE "float_operands_refused")
     ELSE IF e.status # "ok" THEN "unknown_status"
+    ELSE IF ~e.layout_ok THEN "result_layout"
     ELSE IF e.out # OutName(e.k, e.U, "none") THEN "output_unit"
     ELSE IF /\ e.dt # ResultDType(Kernel[e.k].data, e.D, "none")
-            \* the chopper-cascade helpers document no dtype contract: with a single-precision
+            \* the chopper-cascade helpers and the Q components document no dtype contract: with a single-precision
             \* operand both readings of the property (float32 result / "computed in double") are
             \* accepted; with double / integer operands the result must be double.
             /\ ~(e.k \in DTypeUndocumented /\ e.dt = "float32"
